@@ -21,6 +21,7 @@ import Golib.Proof.C18GraphDriver
 import Golib.Proof.C18GraphR
 import Golib.Proof.C18Int64
 import Golib.Proof.C18Brute
+import Golib.Proof.C18KnapH
 
 namespace Golib.C18
 
@@ -56,6 +57,24 @@ theorem c18_knapsack_value {α : Type} (br : Option (List α → List α → Boo
 -- limit 2^20 + 1 hit exactly by the weights 2^20 and 1 (value 7 + 5), not by 2^20 + 2^19
 example : bruteOpt (fun x : Int × Int => x.1) (fun x => x.2) [(1048576, 7), (524288, 6), (1, 5)] 1048577 = 12 ∧
     bruteOpt (fun x : Int × Int => x.1) (fun x => x.2) [(1048576, 7), (524288, 6), (1, 5)] 1048576 = 11 := by decide
+
+/-- `Knapsack` with its real buffers: the scratch slice `tmp` and the per-cell slices
+`dp[i].items` on an explicit heap (`append` in place when the capacity suffices, otherwise a
+fresh buffer of any capacity `grow n`; nil slices = capacity 0).  For every tie-breaker, growth
+policy, limit and item list the heap-level run returns exactly what the value-level model
+returns: no cell ever shares a buffer with `tmp` or with another cell (invariant `KInv`:
+pairwise distinct buffers), so the copy `append(dp[i].items[:0], tmp...)` cannot be observed
+through any other cell, and refilling `tmp` cannot change a stored selection. -/
+theorem c18_knapsack_buffers {α : Type} (br : Option (List α → List α → Bool)) (grow : Nat → Nat)
+    (wf : α → Nat) (vf : α → Int) (W : Nat) (items : List α) :
+    knapsackH br grow wf vf W items = knapsack br wf vf W items :=
+  knapsackH_refines br grow wf vf W items
+
+-- ties broken towards the longer list, exact-fit growth (every append reallocates) and doubling
+example : knapsackH (some fun o n => decide (n.length ≥ o.length)) (fun n => n) (fun x : Nat × Int => x.1) (fun x => x.2) 6
+      [(4, 4), (1, 1), (1, 1), (2, 2), (2, 2)] = some [(1, 1), (1, 1), (2, 2), (2, 2)] ∧
+    knapsackH (some fun o n => decide (n.length ≥ o.length)) (fun n => 2 * n) (fun x : Nat × Int => x.1) (fun x => x.2) 6
+      [(4, 4), (1, 1), (1, 1), (2, 2), (2, 2)] = some [(1, 1), (1, 1), (2, 2), (2, 2)] := by decide
 
 /-- Non-vacuity: three items (weight, value), limit 5, a tie between {0,1} and {2} broken
 towards the newer list. -/
